@@ -45,7 +45,8 @@ impl<'a> G<'a> {
     /// used as a plain (unbound) name, while it is not an operator yet
     fn fresh_word(&mut self, prefix: &str) -> String {
         self.n += 1;
-        let name = format!("{}{}", prefix, self.n);
+        // one word in six is longer than every word operator of the built-in tables
+        let name = if self.r.chance(1, 6) { format!("{}{}_a_rather_long_operator_name", prefix, self.n) } else { format!("{}{}", prefix, self.n) };
         if self.r.chance(1, 3) {
             self.before.push(Op::Exec {
                 prog: Prog::Stmts(vec![lit_i(self.r.range(1, 9)), rf(&name)]),
@@ -136,6 +137,8 @@ impl<'a> G<'a> {
                     0 => (*self.r.pick(&["min", "max", "sum"])).to_string(),
                     1 if !self.reg.funcs.is_empty() => self.reg.funcs.keys().nth(self.r.usize(self.reg.funcs.len())).unwrap().clone(),
                     2 if self.r.chance(1, 2) => (*self.r.pick(&["$fee", "@rate", "_x.y", "#n"])).to_string(),
+                    // names that differ from a word operator of the built-in tables only in capitalisation
+                    3 if self.r.chance(1, 3) => (*self.r.pick(&["In", "and", "Or", "Not", "EndWith", "Beginwith"])).to_string(),
                     _ => {
                         self.n += 1;
                         format!("f{}", self.n)
